@@ -12,15 +12,20 @@ LEVEL_TEXT = (
     "sequences and hits; ORF search: a scan of every ATG returns a longest frame, the regexp search of the unchanged "
     "code returns a genuine frame but NOT a longest one (machine-checked witness GGATGTAATGAGATAA); worker pool "
     "(shared with C08): one result per input, result stream closed exactly once after all workers, set of results "
-    "independent of worker count / capacity / schedule, for ALL schedules. Tied to /repo by regenerated T3 facts "
+    "independent of worker count / capacity / schedule, for ALL schedules; the aligner behind phasing: for the ATG-mode "
+    "aligner on a sequence holding the reference verbatim exactly once, under gapopen <= gapextend < 0 and a diagonally "
+    "dominant scheme, the returned alignment IS that occurrence and alignAgainstRefsNT trims exactly at its start "
+    "(..._partial theorems, from C09's cellR_brute / brute_upper / brute_attained). Tied to /repo by regenerated T3 facts "
     "(instanceOfPool, raceFree, inputsUnmodified over Gen.Facts.phase, ORF search mode), by the correspondence of the "
     "ORF-search model, and by the executable C16 predicate evaluated on Phase's real output for cpus 1..32, also "
     "under the race detector with varied GOMAXPROCS.")
 LEVEL_NOTE = (
-    "The Smith-Waterman aligner (C09) is not modelled: its outcome enters the framing theorems as an arbitrary hit, and "
-    "the clause 'a sequence containing the reference ORF verbatim once is trimmed at its start' is only checked as a "
-    "predicate on the implementation. Go memory model / scheduler outside the model; the consumer is assumed to drain "
-    "the result channel.")
+    "The framing theorems take the aligner's outcome as an arbitrary hit. The ATG-mode aligner and the hit selection of "
+    "alignAgainstRefsNT are modelled (lean/Gv/Model/PhaseAlign.lean, on top of C09's fillMatrix_SW model) and the clause 'a "
+    "sequence containing the reference ORF verbatim once is trimmed at its start' is proved from C09's fill lemmas under "
+    "explicit hypotheses (nucleotide mode, one reference, diagonally dominant scores: see 'partial'); "
+    "elsewhere it is only checked as a predicate on the implementation. Go memory model / scheduler outside the model; the "
+    "consumer is assumed to drain the result channel.")
 TECHNIQUE = ("Lean 4 proof (list induction; transition system over all schedules; decide witnesses) + decidable checks "
              "over regenerated go/ast facts + differential correspondence + race-detector runs")
 LEAN_MODULES = ["Gv.Props.C16"]
@@ -29,11 +34,28 @@ REQUIRED_THEOREMS = ["Gv.Props.C16." + n for n in [
     "phase_nt_is_substring_at_position_nt", "phase_nt_codon_in_frame", "phase_cutend_bounds", "pickLongest_max",
     "longestORF_scan_is_longest", "longestORF_regex_sound", "longestORF_regex_not_longest",
     "pool_one_result_per_input", "pool_results_closed", "pool_schedule_independent", "phase_inputs_unmodified",
-    "instanceOfPool_closes_results"]]
+    "instanceOfPool_closes_results",
+    # the aligner behind phasing (ALIGN_ALGO_ATG, alignAgainstRefsNT): verbatim occurrence of the reference
+    "atg_verbatim_aligned_at_occurrence_partial", "phase_nt_verbatim_trimmed_at_orf_start_partial",
+    "phase_nt_verbatim_trimmed_matchmismatch_partial", "phase_nt_verbatim_trimmed_default_acgt_partial",
+    "once_of_occurrences", "phase_nt_panics_without_positive_alignment", "phase_nt_panics_on_slice_bounds"]]
 PARTIAL = [
-    "alignment quality is C09's: 'a sequence that contains the reference ORF verbatim once is trimmed exactly at that "
-    "ORF's start' is checked only by the oracle predicate on the implementation's results (not proved; depends on "
-    "sw_optimal in ATG mode)",
+    "'a sequence that contains the reference ORF verbatim once is trimmed exactly at that ORF's start' is PROVED (from the C09 "
+    "lemmas about the repaired fillMatrix_SW) only as ..._partial: for the nucleotide mode (alignAgainstRefsNT, model "
+    "lean/Gv/Model/PhaseAlign.lean), ONE reference, gap penalties gapopen <= gapextend < 0, "
+    "a reference without gap character, and a diagonally dominant scoring scheme (each residue of the reference scores > 0 "
+    "against itself and strictly less against any other residue of the sequence): instances proved = any "
+    "SetAlignScores(match, mismatch) with mismatch < match, 0 < match (one or both strands: the other strand can only tie, and "
+    "the forward hit is kept), and the default DNAfull matrix on upper-case A/C/G/T (forward strand); with both strands the "
+    "general theorem also asks dominance on the reverse-complemented copy. 'Unless an alignment error is reported' is the "
+    "theorem's other disjunct. NOT proved: translate mode (BLOSUM62 on the 3/6 translations), several references, ambiguity "
+    "codes under DNAfull - there the clause is checked only by the oracle predicate on the implementation's results",
+    "the models of the ATG-mode aligner and of alignAgainstRefsNT are hand-written and tied to the code by the atgalign / "
+    "phasent1 correspondence runs only; scores are dyadic rationals computed exactly (as for C09)",
+    "two run-time panics of alignAgainstRefsNT (worker goroutine, kills the process) are part of the model and kernel-checked "
+    "(phase_nt_panics_without_positive_alignment: no alignment anchored at the reference start scores > 0, e.g. ATG vs CC; "
+    "phase_nt_panics_on_slice_bounds: ATG vs T with --gap-open -1); the generators avoid such inputs - they are reported, "
+    "not recorded in known_findings.jsonl by this change",
     "longestORF: the scan search now in /repo (fix: a715114, every ATG considered) satisfies longestORF_scan_is_longest "
     "('no input contains a longer ORF'); for the regexp search first shipped its negation longestORF_regex_not_longest "
     "is kept as a theorem (the model follows Gen.Facts.longestOrfRegex)",
@@ -49,7 +71,10 @@ RULE = (
     "an ORF (ATG + 4-40 sense codons + stop) + random flank, some reverse-complemented; with / without explicit "
     "reference ORF(s); translate x reverse x cut-end x 3 genetic codes; cpus {1,2,3,8,16,32} (thorough: 1..32); sets "
     "with a sequence too short to translate (error path); every case also under -race with GOMAXPROCS {1,2,4,ncpu}; "
-    "longestorf / baglongestorf: random and constructed sequences (overlapping frames, lower case, U), both strands. "
+    "longestorf / baglongestorf: random and constructed sequences (overlapping frames, lower case, U), both strands; "
+    "atgalign: the ATG-mode aligner on reference + (verbatim / mutated / truncated / unrelated copy in random flanks, "
+    "occasionally a second copy) and on tiny random pairs, gap penalties x {matrix, 5 match/mismatch pairs}; phasent1: "
+    "alignAgainstRefsNT on one sequence, 1-2 references, reverse x cut-end x 3 codes. "
     "Non-trivial = phase input set with >= 2 sequences whose ORF copies lie in different frames, or an ORF-search "
     "input with >= 2 ATG..stop frames in different reading frames")
 TIMEOUT = P.TIMEOUT
@@ -178,6 +203,65 @@ def gen(rng, tier):
         rows = [("s%d" % i, rnd(rng, rng.randint(0, 9)) + orf + rnd(rng, rng.randint(0, 9))) for i in range(rng.randint(3, 8))]
         rows.insert(rng.randint(0, len(rows)), ("short", rnd(rng, rng.randint(1, 4))))
         yield Case("phase", [cpus, 1, rng.choice([0, 1]), 0, 0, "ref:" + orf, P.rows_str(rows), P.WATCH_MS], False, "phase-error-path")
+
+
+    # ---- the aligner behind phasing (ALIGN_ALGO_ATG) and alignAgainstRefsNT on one sequence ----------------
+    for c in align_cases(rng, quick):
+        yield c
+
+
+GAPS = [("d", "d"), ("d", "d"), ("-20", "-1"), ("-4", "-1"), ("-2", "-2"), ("-6", "-3"), ("-24", "-1")]
+SCORES = [("_", "_"), ("_", "_"), ("2", "-2"), ("10", "-8"), ("4", "-1"), ("2", "1"), ("6", "-6")]
+
+
+def align_cases(rng, quick):
+    """atgalign: the ATG-mode aligner against its model; phasent1: alignAgainstRefsNT on one sequence.
+    Inputs always hold a (possibly mutated) copy of the reference, so that some alignment anchored at the
+    reference's start scores above 0 (without one the worker goroutine panics: see the report of C16)."""
+    for _ in range(400 if quick else 4000):
+        orf = make_orf(rng, rng.randint(1, 12))
+        kind = rng.randint(0, 3)
+        if kind == 0:
+            body = orf                                              # verbatim
+        elif kind == 1:
+            body = mutate(rng, orf, rng.choice([0.02, 0.1, 0.3]), rng.random() < 0.3)
+        elif kind == 2:
+            k = rng.randint(1, len(orf) - 1)                        # truncated copy
+            body = orf[:k] if rng.random() < 0.5 else orf[len(orf) - k:]
+        else:
+            body = rnd(rng, rng.randint(1, 12))                     # unrelated
+        left, right = rnd(rng, rng.randint(0, 9)), rnd(rng, rng.randint(0, 9))
+        seq = left + body + right
+        if rng.random() < 0.1:
+            seq = seq + orf                                         # a second copy
+        go, ge = rng.choice(GAPS)
+        mt, mm = rng.choice(SCORES)
+        once = seq.count(orf) == 1 and seq.find(orf) == seq.rfind(orf)
+        yield Case("atgalign", [2, go, ge, mt, mm, orf, seq], once and bool(left) and bool(right), "atgalign")
+    for _ in range(150 if quick else 1500):
+        # tiny pairs: every border path of the trace-back (start in the first row / column, no positive value)
+        s1 = rnd(rng, rng.randint(1, 4))
+        s2 = rnd(rng, rng.randint(1, 5))
+        go, ge = rng.choice(GAPS)
+        mt, mm = rng.choice(SCORES)
+        yield Case("atgalign", [2, go, ge, mt, mm, s1, s2], False, "atgalign-tiny")
+    for _ in range(150 if quick else 1500):
+        orf = make_orf(rng, rng.randint(2, 12))
+        verb = rng.random() < 0.5
+        body = orf if verb else mutate(rng, orf, rng.choice([0.02, 0.1]), rng.random() < 0.2)
+        left, right = rnd(rng, rng.randint(0, 9)), rnd(rng, rng.randint(0, 9))
+        seq = left + body + right
+        reverse = rng.choice([0, 0, 1])
+        if reverse and rng.random() < 0.5:
+            seq = revcomp(seq)
+        refs = "ref:" + orf
+        if rng.random() < 0.15:
+            refs += ",ref2:" + make_orf(rng, rng.randint(2, 6))
+        go, ge = rng.choice([("d", "d"), ("d", "d"), ("-20", "-1"), ("-24", "-1")])
+        mt, mm = rng.choice([("_", "_"), ("_", "_"), ("2", "-2"), ("10", "-8")])
+        once = seq.count(orf) == 1
+        yield Case("phasent1", [2, go, ge, mt, mm, reverse, rng.choice([0, 1]), rng.choice([0, 1, 2]), refs, seq],
+                   once and bool(left), "phasent1")
 
 
 def accepts(c):
